@@ -73,7 +73,8 @@ def gen_scenarios(spec, rng, n):
         client = rng.choice(["sync", "async", "async"] + (["rest", "rest"] if "rest" in spec["options"]["transport"] else []))
         if "grpc" not in spec["options"]["transport"]:
             client = "rest"
-        nact = 1 if client != "async" else rng.choice([1, 2, 3, 4])
+        from ..rng import deep
+        nact = 1 if client != "async" else rng.choice([1, 2, 4, 6, 8] if deep() else [1, 2, 3, 4])
         actors = [{"start": 0.0, "ops": []} for _ in range(nact)]
         nops = rng.randint(1, 4) if nact == 1 else nact + rng.randint(0, 2)
         for j in range(nops):
